@@ -18,10 +18,22 @@ def rfc_compatible(a, b):
     return frozenset([a, b]) in RFC_COMPAT
 
 
+def last_seg(path):
+    """`a::b::Name<T>` -> `Name`: the type's own (public) name, whatever private module it lives in"""
+    p = path.split("<")[0].strip()
+    return p.split("::")[-1]
+
+
+def names_type(path, suffix):
+    """does def/type path `path` name the type `suffix` - compared on the last segment only (`r#pub::PubSocket` = `PubSocket`):
+    private module names are not part of an anchor"""
+    return last_seg(path) == last_seg(suffix)
+
+
 def fields_by_type(f, struct_suffix, pred):
     """names of the fields of a local struct whose type text satisfies pred (roles by type, never by name)"""
     for p, a in f.adts.items():
-        if p.endswith(struct_suffix) and a["kind"] == "Struct":
+        if names_type(p, struct_suffix) and a["kind"] == "Struct":
             return [x["name"] for x in a["variants"][0]["fields"] if pred(x["ty"])]
     return []
 
